@@ -16,6 +16,7 @@ structure St where
   nodes : List NodeRec := []
   rels : List RelRec := []
   g : Graph := ⟨[], []⟩
+  committed : Bool := false     -- `commit` succeeded: the database exists (before that the runner answers bad-op)
 
 def setProp (ps : Props) (k : String) (v : Scalar) : Props :=
   if ps.any (·.1 == k) then ps.map fun (k', v') => if k' == k then (k', v) else (k', v') else ps ++ [(k, v)]
@@ -50,8 +51,13 @@ def step (st : St) (ws : List String) : St × String × String × String :=
     | some s, some d, some props => ({ st with rels := addRel st.rels ⟨s, t, d⟩ props }, "ok", "-", "")
     | _, _, _ => (st, "bad-op", "-", "")
   | ["commit"] =>
+    -- a relationship line naming a node that does not exist makes the runner's build fail: no database
+    if st.rels.any fun e => e.id.src ≥ st.nodes.length || e.id.dst ≥ st.nodes.length then
+      ({ st with committed := false }, "err", "-", "")
+    else
     let ids := st.nodes.map fun n => toString n.id
-    ({ st with g := ⟨st.nodes, st.rels⟩ }, "ok " ++ (if ids.isEmpty then "-" else ",".intercalate ids), "-", "")
+    ({ st with g := ⟨st.nodes, st.rels⟩, committed := true },
+      "ok " ++ (if ids.isEmpty then "-" else ",".intercalate ids), "-", "")
   | "explain" :: _text :: sx =>
     match (parse (" ".intercalate sx)).bind queryOf with
     | some q =>
@@ -61,6 +67,7 @@ def step (st : St) (ws : List String) : St × String × String × String :=
       (st, m, "-", "")
     | none => (st, "bad-op", "-", "")
   | "query" :: mode :: _text :: sx =>
+    if !st.committed then (st, "bad-op", "-", "") else
     match (parse (" ".intercalate sx)).bind queryOf with
     | some q =>
       let env : Env := { g := st.g }
